@@ -1,2 +1,515 @@
+import NeatviVerif.Model.ExCmd
+/-!
+# C20  Each open buffer keeps its own text, position and dirty state across switches
+-/
 namespace Neatvi.Props.C20
+open Neatvi Neatvi.Lbuf Neatvi.Ex
+
+/-! ### leaving a buffer: `bufs_save` and the sequence bump -/
+
+/-- bumping the sequence counter (`lbuf_modified`) does not change what `lbuf_modified` reports:
+    `seqAt`, `useqZero` and `unsaved` do not depend on `useq` -/
+theorem modified_bump (lb : Lb) : (modified (modified lb).2).1 = (modified lb).1 := rfl
+
+/-- the bump changes `useq` only -/
+theorem modified_fields (lb : Lb) :
+    (modified lb).2 = { lb with useq := lb.useq + 1 } := rfl
+
+/-- the record slot 0 holds after the buffer `b` has been left: the view of the editor is stored
+    and the sequence counter bumped -/
+def leftRec (ed : Ed) (b : Buf) : Buf :=
+  { b with row := ed.xrow, off := ed.xoff, top := ed.xtop, left := ed.xleft, td := ed.xtd,
+           lb := (modified b.lb).2 }
+
+/-- what leaving keeps of a buffer: path, id, mtime, the text, the undo history, the dirty state;
+    and what it records: the view at the time of the switch -/
+theorem leftRec_keeps (ed : Ed) (b : Buf) :
+    (leftRec ed b).path = b.path ∧ (leftRec ed b).id = b.id ∧ (leftRec ed b).mtime = b.mtime ∧
+    (leftRec ed b).lb.lines = b.lb.lines ∧ (leftRec ed b).lb.hist = b.lb.hist ∧
+    (leftRec ed b).lb.histU = b.lb.histU ∧ (leftRec ed b).lb.mark = b.lb.mark ∧
+    (leftRec ed b).lb.markOff = b.lb.markOff ∧
+    (modified (leftRec ed b).lb).1 = (modified b.lb).1 ∧
+    (leftRec ed b).lb = { b.lb with useq := b.lb.useq + 1 } ∧
+    (leftRec ed b).row = ed.xrow ∧ (leftRec ed b).off = ed.xoff ∧
+    (leftRec ed b).top = ed.xtop ∧ (leftRec ed b).left = ed.xleft ∧ (leftRec ed b).td = ed.xtd :=
+  ⟨rfl, rfl, rfl, rfl, rfl, rfl, rfl, rfl, rfl, rfl, rfl, rfl, rfl, rfl, rfl⟩
+
+/-- the buffer table after `bufs_save()` and the bump of slot 0 (the first two steps of `bufs_switch`) -/
+def leftBufs (ed : Ed) : List (Option Buf) :=
+  match ed.bufs.getD 0 none with
+  | some b => ed.bufs.set 0 (some (leftRec ed b))
+  | none => ed.bufs
+
+theorem leftBufs_length (ed : Ed) : (leftBufs ed).length = ed.bufs.length := by
+  unfold leftBufs; split <;> simp
+
+/-- leaving touches slot 0 only -/
+theorem leftBufs_getD (ed : Ed) (i : Nat) (hi : 0 < i) : (leftBufs ed).getD i none = ed.bufs.getD i none := by
+  unfold leftBufs
+  split
+  · cases h : ed.bufs with
+    | nil => simp
+    | cons a l => cases i with
+      | zero => omega
+      | succ i => simp
+  · rfl
+
+theorem leftBufs_zero (ed : Ed) (b : Buf) (h : ed.bufs.getD 0 none = some b) :
+    (leftBufs ed).getD 0 none = some (leftRec ed b) := by
+  unfold leftBufs
+  rw [h]
+  cases hb : ed.bufs with
+  | nil => rw [hb] at h; simp at h
+  | cons a l => simp
+
+theorem leftBufs_zero_none (ed : Ed) (h : ed.bufs.getD 0 none = none) : (leftBufs ed).getD 0 none = none := by
+  unfold leftBufs; rw [h]; exact h
+
+/-! ### 8: `bufs_switch` is a rotation of the table -/
+
+/-- the state after the first two steps of `bufs_switch` (as the model writes them) -/
+def mid (ed : Ed) : Ed :=
+  match ed.bufsSave.bufs.getD 0 none with
+  | some b => { ed.bufsSave with bufs := ed.bufsSave.bufs.set 0 (some { b with lb := (Lbuf.modified b.lb).2 }) }
+  | none => ed.bufsSave
+
+theorem switch_def (ed : Ed) (idx : Nat) : ed.bufsSwitch idx =
+    ({ mid ed with bufs := [(mid ed).bufs.getD idx none] ++ (mid ed).bufs.take idx ++ (mid ed).bufs.drop (idx + 1) }).bufsLoad :=
+  rfl
+
+theorem mid_bufs (ed : Ed) : (mid ed).bufs = leftBufs ed := by
+  unfold mid leftBufs Ed.bufsSave Ed.cur Ed.setCur
+  cases hb : ed.bufs with
+  | nil => simp [hb]
+  | cons a l =>
+    cases a with
+    | none => simp [hb]
+    | some b => simp [leftRec]
+
+theorem bufsLoad_bufs (ed : Ed) : ed.bufsLoad.bufs = ed.bufs := by
+  unfold Ed.bufsLoad; split <;> rfl
+
+/-- `bufs_load()` makes the view that of slot 0 -/
+theorem bufsLoad_view (ed : Ed) (b : Buf) (h : ed.cur = some b) :
+    ed.bufsLoad.cur = some b ∧ ed.bufsLoad.xrow = b.row ∧ ed.bufsLoad.xoff = b.off ∧
+    ed.bufsLoad.xtop = b.top ∧ ed.bufsLoad.xleft = b.left ∧ ed.bufsLoad.xtd = b.td := by
+  unfold Ed.bufsLoad
+  rw [h]
+  exact ⟨h, rfl, rfl, rfl, rfl, rfl⟩
+
+/-- `bufs_switch(idx)` moves slot `idx` to the front and shifts slots `0..idx-1` down by one; the
+    table it rotates is the old one with slot 0 "left" (view stored, sequence counter bumped) -/
+theorem switch_rotation (ed : Ed) (idx : Nat) :
+    (ed.bufsSwitch idx).bufs =
+      [(leftBufs ed).getD idx none] ++ (leftBufs ed).take idx ++ (leftBufs ed).drop (idx + 1) := by
+  rw [switch_def, bufsLoad_bufs, mid_bufs]
+
+theorem rotate_perm {α : Type} (L : List α) (d : α) (idx : Nat) (h : idx < L.length) :
+    ([L.getD idx d] ++ L.take idx ++ L.drop (idx + 1)).Perm L := by
+  have h1 : L.getD idx d = L[idx] := by simp [List.getD, h]
+  have h2 : L = L.take idx ++ L[idx] :: L.drop (idx + 1) := by
+    rw [← List.drop_eq_getElem_cons h, List.take_append_drop]
+  rw [h1]
+  conv => rhs; rw [h2]
+  simp only [List.cons_append, List.nil_append]
+  exact List.perm_middle.symm
+
+/-- a switch permutes the table: no buffer is lost or duplicated -/
+theorem switch_perm (ed : Ed) (idx : Nat) (h : idx < ed.bufs.length) :
+    (ed.bufsSwitch idx).bufs.Perm (leftBufs ed) := by
+  rw [switch_rotation]
+  exact rotate_perm _ _ _ (by rw [leftBufs_length]; exact h)
+
+/-- the table keeps its length -/
+theorem switch_length (ed : Ed) (idx : Nat) (h : idx < ed.bufs.length) :
+    (ed.bufsSwitch idx).bufs.length = ed.bufs.length := by
+  rw [(switch_perm ed idx h).length_eq, leftBufs_length]
+
+/-- the rotation slot by slot: the new slot 0 is the old slot `idx`, the new slots `1..idx` are the
+    old slots `0..idx-1`, the slots after `idx` stay -/
+theorem switch_slots (ed : Ed) (idx : Nat) (h : idx < ed.bufs.length) :
+    (ed.bufsSwitch idx).bufs.getD 0 none = (leftBufs ed).getD idx none ∧
+    (∀ j, j < idx → (ed.bufsSwitch idx).bufs.getD (j + 1) none = (leftBufs ed).getD j none) ∧
+    (∀ j, idx < j → (ed.bufsSwitch idx).bufs.getD j none = (leftBufs ed).getD j none) := by
+  rw [switch_rotation]
+  have hl : idx < (leftBufs ed).length := by rw [leftBufs_length]; exact h
+  generalize leftBufs ed = L at hl
+  refine ⟨by simp, ?_, ?_⟩
+  · intro j hj
+    simp only [List.cons_append, List.nil_append, List.getD_eq_getElem?_getD, List.getElem?_cons_succ]
+    rw [List.getElem?_append_left (by simp; omega), List.getElem?_take_of_lt hj]
+  · intro j hj
+    cases j with
+    | zero => omega
+    | succ k =>
+      simp only [List.cons_append, List.nil_append, List.getD_eq_getElem?_getD, List.getElem?_cons_succ]
+      rw [List.getElem?_append_right (by simp; omega)]
+      simp only [List.length_take, List.getElem?_drop]
+      congr 2
+      omega
+
+/-! ### 9: what a switch preserves -/
+
+theorem mem_of_getD {α : Type} (L : List (Option α)) (i : Nat) (x : α) (h : L.getD i none = some x) :
+    some x ∈ L ∧ i < L.length := by
+  rw [List.getD_eq_getElem?_getD] at h
+  cases hi : L[i]? with
+  | none => rw [hi] at h; cases h
+  | some y =>
+    rw [hi] at h
+    simp only [Option.getD_some] at h
+    subst h
+    exact ⟨List.mem_of_getElem? hi, (List.getElem?_eq_some_iff.mp hi).1⟩
+
+/-- every buffer record other than slot 0 occurs unchanged (same text, path, id, mtime, stored
+    position, everything) in the table after a switch -/
+theorem switch_preserves_others (ed : Ed) (idx i : Nat) (bf : Buf) (h : idx < ed.bufs.length)
+    (hi : 0 < i) (hb : ed.bufs.getD i none = some bf) : some bf ∈ (ed.bufsSwitch idx).bufs := by
+  rw [← leftBufs_getD ed i hi] at hb
+  exact (switch_perm ed idx h).symm.subset (mem_of_getD _ _ _ hb).1
+
+/-- the record that was in slot 0 occurs with the same text, path, id, mtime and dirty state
+    (`leftRec_keeps`), with the view at the time of the switch stored in it -/
+theorem switch_preserves_current (ed : Ed) (idx : Nat) (b0 : Buf) (h : idx < ed.bufs.length)
+    (hb : ed.bufs.getD 0 none = some b0) : some (leftRec ed b0) ∈ (ed.bufsSwitch idx).bufs :=
+  (switch_perm ed idx h).symm.subset (mem_of_getD _ _ _ (leftBufs_zero ed b0 hb)).1
+
+/-- the buffer switched to becomes current and its stored position becomes the view -/
+theorem switch_loads (ed : Ed) (idx : Nat) (b : Buf) (hne : idx ≠ 0)
+    (hb : ed.bufs.getD idx none = some b) :
+    (ed.bufsSwitch idx).cur = some b ∧ (ed.bufsSwitch idx).xrow = b.row ∧ (ed.bufsSwitch idx).xoff = b.off ∧
+    (ed.bufsSwitch idx).xtop = b.top ∧ (ed.bufsSwitch idx).xleft = b.left ∧ (ed.bufsSwitch idx).xtd = b.td := by
+  rw [switch_def]
+  apply bufsLoad_view
+  show ([(mid ed).bufs.getD idx none] ++ (mid ed).bufs.take idx ++ (mid ed).bufs.drop (idx + 1)).getD 0 none = some b
+  rw [mid_bufs, leftBufs_getD ed idx (by omega)]
+  simpa using hb
+
+/-- switching to slot 0 itself: the current buffer stays current, with its view -/
+theorem switch_self (ed : Ed) (b0 : Buf) (hb : ed.bufs.getD 0 none = some b0) :
+    (ed.bufsSwitch 0).cur = some (leftRec ed b0) ∧ (ed.bufsSwitch 0).xrow = ed.xrow ∧
+    (ed.bufsSwitch 0).xoff = ed.xoff ∧ (ed.bufsSwitch 0).xtop = ed.xtop ∧ (ed.bufsSwitch 0).xleft = ed.xleft := by
+  rw [switch_def]
+  have hc : ({ mid ed with bufs := [(mid ed).bufs.getD 0 none] ++ (mid ed).bufs.take 0 ++ (mid ed).bufs.drop (0 + 1) } : Ed).cur
+      = some (leftRec ed b0) := by
+    show ([(mid ed).bufs.getD 0 none] ++ (mid ed).bufs.take 0 ++ (mid ed).bufs.drop (0 + 1)).getD 0 none = _
+    rw [mid_bufs]
+    simpa using leftBufs_zero ed b0 hb
+  obtain ⟨a, b', c, d, e', _⟩ := bufsLoad_view _ _ hc
+  exact ⟨a, b', c, d, e'⟩
+
+/-- where every record ends up after a switch to `idx ≠ 0` -/
+theorem switch_positions (ed : Ed) (idx : Nat) (h : idx < ed.bufs.length) (hne : idx ≠ 0) :
+    (ed.bufsSwitch idx).bufs.getD 0 none = ed.bufs.getD idx none ∧
+    (ed.bufsSwitch idx).bufs.getD 1 none = (ed.bufs.getD 0 none).map (leftRec ed) ∧
+    (∀ j, 0 < j → j < idx → (ed.bufsSwitch idx).bufs.getD (j + 1) none = ed.bufs.getD j none) ∧
+    (∀ j, idx < j → (ed.bufsSwitch idx).bufs.getD j none = ed.bufs.getD j none) := by
+  obtain ⟨h0, h1, h2⟩ := switch_slots ed idx h
+  refine ⟨?_, ?_, ?_, ?_⟩
+  · rw [h0, leftBufs_getD ed idx (by omega)]
+  · rw [h1 0 (by omega)]
+    cases hb : ed.bufs.getD 0 none with
+    | none => rw [leftBufs_zero_none ed hb]; rfl
+    | some b0 => rw [leftBufs_zero ed b0 hb]; rfl
+  · intro j hj hji; rw [h1 j hji, leftBufs_getD ed j hj]
+  · intro j hj; rw [h2 j hj, leftBufs_getD ed j (by omega)]
+
+/-- switching away and back restores the buffer with its text, dirty state and position: after
+    `bufs_switch(idx)` the old current buffer sits in slot 1, and `bufs_switch(1)` makes it current
+    again with the view it was left with -/
+theorem switch_back (ed : Ed) (idx : Nat) (b0 : Buf) (h : idx < ed.bufs.length) (hne : idx ≠ 0)
+    (hb : ed.bufs.getD 0 none = some b0) :
+    ((ed.bufsSwitch idx).bufsSwitch 1).cur = some (leftRec ed b0) ∧
+    ((ed.bufsSwitch idx).bufsSwitch 1).xrow = ed.xrow ∧ ((ed.bufsSwitch idx).bufsSwitch 1).xoff = ed.xoff ∧
+    ((ed.bufsSwitch idx).bufsSwitch 1).xtop = ed.xtop ∧ ((ed.bufsSwitch idx).bufsSwitch 1).xleft = ed.xleft := by
+  have h1 := (switch_positions ed idx h hne).2.1
+  rw [hb] at h1
+  obtain ⟨a, b', c, d, e', _⟩ := switch_loads (ed.bufsSwitch idx) 1 (leftRec ed b0) (by omega) h1
+  exact ⟨a, b', c, d, e'⟩
+
+/-! ### 10: `bufs_find` -/
+
+theorem bufsFind_cases (ed : Ed) (p : Bytes) :
+    (∃ n : Nat, (List.range ed.bufs.length).find?
+        (fun i => match ed.bufs.getD i none with | some b => b.path == normPath p | none => false) = some n ∧
+      ed.bufsFind p = (n : Int)) ∨
+    ((List.range ed.bufs.length).find?
+        (fun i => match ed.bufs.getD i none with | some b => b.path == normPath p | none => false) = none ∧
+      ed.bufsFind p = -1) := by
+  unfold Ed.bufsFind
+  simp only []
+  cases (List.range ed.bufs.length).find?
+      (fun i => match ed.bufs.getD i none with | some b => b.path == normPath p | none => false) with
+  | none => right; exact ⟨rfl, rfl⟩
+  | some n => left; exact ⟨n, rfl, rfl⟩
+
+/-- a non-negative result of `bufs_find(p)` is the first slot holding a buffer of that path -/
+theorem find_by_path (ed : Ed) (p : Bytes) (i : Int) (h : ed.bufsFind p = i) (hi : 0 ≤ i) :
+    i.toNat < ed.bufs.length ∧ (∃ b, ed.bufs.getD i.toNat none = some b ∧ b.path = normPath p) ∧
+    ∀ j b, j < i.toNat → ed.bufs.getD j none = some b → b.path ≠ normPath p := by
+  rcases bufsFind_cases ed p with ⟨n, hf, hn⟩ | ⟨_, hn⟩
+  · rw [hn] at h
+    subst h
+    simp only [Int.toNat_natCast]
+    have h1 := List.find?_some hf
+    have h2 := List.mem_of_find?_eq_some hf
+    simp only [List.mem_range] at h2
+    refine ⟨h2, ?_, ?_⟩
+    · cases hb : ed.bufs.getD n none with
+      | none => rw [hb] at h1; cases h1
+      | some b => rw [hb] at h1; exact ⟨b, rfl, by simpa using h1⟩
+    · intro j b hj hb hp
+      have := (List.find?_range_eq_some.mp hf).2.2 j hj
+      rw [hb] at this
+      simp [hp] at this
+  · rw [hn] at h; omega
+
+/-- `bufs_find(p) = -1` means that no slot holds a buffer of that path -/
+theorem find_by_path_none (ed : Ed) (p : Bytes) (h : ed.bufsFind p = -1) :
+    ∀ j b, ed.bufs.getD j none = some b → b.path ≠ normPath p := by
+  rcases bufsFind_cases ed p with ⟨n, _, hn⟩ | ⟨hf, _⟩
+  · rw [hn] at h; omega
+  · intro j b hb hp
+    have hj := (mem_of_getD _ _ _ hb).2
+    rw [List.find?_eq_none] at hf
+    have := hf j (by simp; exact hj)
+    rw [hb] at this
+    simp [hp] at this
+
+/-! ### 12: `bufs_open` and the room policy -/
+
+/-- `bufs_findroom()`: the first free slot among all but the last, otherwise the last slot -/
+theorem room_policy (ed : Ed) :
+    (ed.findRoom < ed.bufs.length - 1 ∧ ed.bufs.getD ed.findRoom none = none ∧
+      ∀ j, j < ed.findRoom → (ed.bufs.getD j none).isSome = true) ∨
+    (ed.findRoom = ed.bufs.length - 1 ∧ ∀ j, j < ed.bufs.length - 1 → (ed.bufs.getD j none).isSome = true) := by
+  unfold Ed.findRoom
+  cases hf : (List.range (ed.bufs.length - 1)).find? (fun i => (ed.bufs.getD i none).isNone) with
+  | some i =>
+    left
+    obtain ⟨h1, h2, h3⟩ := List.find?_range_eq_some.mp hf
+    simp only [List.mem_range] at h2
+    refine ⟨h2, by simpa using h1, ?_⟩
+    intro j hj
+    have := h3 j hj
+    cases hb : ed.bufs.getD j none with
+    | none => rw [hb] at this; simp at this
+    | some x => rfl
+  | none =>
+    right
+    refine ⟨rfl, ?_⟩
+    intro j hj
+    have := List.find?_range_eq_none.mp hf j hj
+    cases hb : ed.bufs.getD j none with
+    | none => rw [hb] at this; simp at this
+    | some x => rfl
+
+theorem findRoom_lt (ed : Ed) (h : 0 < ed.bufs.length) : ed.findRoom < ed.bufs.length := by
+  rcases room_policy ed with ⟨h1, _⟩ | ⟨h1, _⟩ <;> omega
+
+/-- the record `bufs_open(path)` creates -/
+def newBuf (ed : Ed) (p : Bytes) : Buf := { path := normPath p, lb := Lbuf.make, id := ed.bufsCnt + 1 }
+
+theorem getD_set_ne {α : Type} (l : List α) (i j : Nat) (a d : α) (h : j ≠ i) :
+    (l.set i a).getD j d = l.getD j d := by
+  simp only [List.getD_eq_getElem?_getD, List.getElem?_set]
+  rw [if_neg (fun h' => h h'.symm)]
+
+theorem getD_set_eq {α : Type} (l : List α) (i : Nat) (a d : α) (h : i < l.length) :
+    (l.set i a).getD i d = a := by
+  simp [List.getD_eq_getElem?_getD, h]
+
+/-- `bufs_open(path)` puts a fresh, empty buffer with the next id into the slot chosen by
+    `room_policy` and changes no other slot; the counter of ids goes up by one -/
+theorem open_uses_free_slot (ed : Ed) (p : Bytes) :
+    (ed.bufsOpen p).1 = ed.findRoom ∧
+    (ed.bufsOpen p).2.bufs = ed.bufs.set ed.findRoom (some (newBuf ed p)) ∧
+    (ed.bufsOpen p).2.bufsCnt = ed.bufsCnt + 1 ∧
+    (newBuf ed p).id = ed.bufsCnt + 1 ∧ (newBuf ed p).path = normPath p ∧ (newBuf ed p).lb.lines = [] ∧
+    (∀ j, j ≠ ed.findRoom → (ed.bufsOpen p).2.bufs.getD j none = ed.bufs.getD j none) ∧
+    (0 < ed.bufs.length → (ed.bufsOpen p).2.bufs.getD ed.findRoom none = some (newBuf ed p)) :=
+  ⟨rfl, rfl, rfl, rfl, rfl, rfl, fun _ hj => getD_set_ne _ _ _ _ _ hj,
+    fun h => getD_set_eq _ _ _ _ (findRoom_lt ed h)⟩
+
+/-- when a free slot exists among all but the last, opening a buffer loses none: every buffer of
+    the old table is still in its slot -/
+theorem open_keeps_all (ed : Ed) (p : Bytes) (hfree : ed.findRoom < ed.bufs.length - 1) :
+    ∀ j b, ed.bufs.getD j none = some b → (ed.bufsOpen p).2.bufs.getD j none = some b := by
+  intro j b hb
+  rcases room_policy ed with ⟨_, h2, _⟩ | ⟨h1, _⟩
+  · have hj : j ≠ ed.findRoom := by intro h; rw [h, h2] at hb; cases hb
+    rw [(open_uses_free_slot ed p).2.2.2.2.2.2.1 j hj, hb]
+  · omega
+
+/-- when all slots but the last are taken, the new buffer replaces the last slot (slot 15) -/
+theorem open_full_evicts_last (ed : Ed) (p : Bytes)
+    (hfull : ∀ j, j < ed.bufs.length - 1 → (ed.bufs.getD j none).isSome = true) :
+    (ed.bufsOpen p).1 = ed.bufs.length - 1 := by
+  rcases room_policy ed with ⟨h1, h2, _⟩ | ⟨h1, _⟩
+  · have := hfull _ h1; rw [h2] at this; cases this
+  · exact h1
+
+/-! ### 11: re-opening an open file does not re-read it -/
+
+/-- the unsaved-changes guard of `ec_edit` -/
+def editGuard (ed : Ed) (cmd : Bytes) : R Bool :=
+  if !hasBang cmd && ed.cur.isSome && ed.xwa == 0 then bufsModified ed 0 (some (strOf "buffer modified"))
+  else some (false, ed)
+
+/-- `:ew path` first brings the alternate buffer to the front when the target sits beyond slot 1 -/
+def ewPre (ed : Ed) (cmd path : Bytes) : Ed :=
+  if !path.isEmpty && cmd.headD 0 == 101 && cmd.getD 1 0 == 119 && ed.bufsFind path > 1 then ed.bufsSwitch 1 else ed
+
+/-- a switch does not touch the file system -/
+theorem switch_files (ed : Ed) (idx : Nat) : (ed.bufsSwitch idx).files = ed.files := by
+  unfold Ed.bufsSwitch Ed.bufsLoad Ed.bufsSave Ed.setCur
+  simp only []
+  repeat' split
+  all_goals rfl
+
+/-- `:e path` for a path that is already open (no `+cmd`): once the unsaved-changes guard has
+    passed, the command is just a switch to the slot `bufs_find` reports: no file is read and no
+    buffer text changes (the table is rotated, see `switch_rotation`) -/
+theorem reopen_does_not_reread (f : Nat) (ed ed1 ed2 : Ed) (cmd arg path : Bytes)
+    (hg : editGuard ed cmd = some (false, ed1))
+    (hplus : (arg.dropWhile (· == 32)).headD 0 ≠ 43)
+    (hp : pathExpand ed1 (arg.dropWhile (· == 32)) false = some (some path, ed2))
+    (hne : path ≠ [])
+    (hf : (ewPre ed2 cmd path).bufsFind path ≥ 0) :
+    ecEdit (f + 1) ed cmd arg =
+      some (0, (ewPre ed2 cmd path).bufsSwitch ((ewPre ed2 cmd path).bufsFind path).toNat) := by
+  unfold editGuard at hg
+  rw [ecEdit]
+  simp only [hg]
+  have hplus' : ((arg.dropWhile (· == 32)).headD 0 == 43) = false := by simpa using hplus
+  have hne' : path.isEmpty = false := by cases path <;> simp_all
+  unfold ewPre at hf ⊢
+  simp only [hplus', Bool.false_eq_true, if_false, hp, hne', Bool.not_false, Bool.true_and] at hf ⊢
+  simp only [hf, decide_true, if_true]
+  rfl
+
+/-- for every command other than `:ew`, the state switched from is the one the guard and the path
+    expansion produced -/
+theorem ewPre_plain (ed : Ed) (cmd path : Bytes) (h : ¬ (cmd.headD 0 = 101 ∧ cmd.getD 1 0 = 119)) :
+    ewPre ed cmd path = ed := by
+  unfold ewPre
+  split
+  · next hc =>
+    simp only [Bool.and_eq_true, beq_iff_eq, decide_eq_true_eq] at hc
+    exact absurd ⟨hc.1.1.2, hc.1.2⟩ h
+  · rfl
+
+/-- the file system after re-opening is the one before the switch -/
+theorem reopen_files (ed : Ed) (cmd path : Bytes) (idx : Nat) :
+    ((ewPre ed cmd path).bufsSwitch idx).files = ed.files := by
+  rw [switch_files]
+  unfold ewPre
+  split
+  · exact switch_files _ _
+  · rfl
+
+/-! ### `:b N` -/
+
+/-- the unsaved-changes guard of `ec_buffer` -/
+def bufferGuard (ed : Ed) (cmd : Bytes) : R Bool :=
+  if ed.xwa == 0 && !hasBang cmd then bufsModified ed 0 (some (strOf "buffer modified")) else some (false, ed)
+
+/-- `:b N` switches to the first slot whose buffer has id `N` (once the unsaved-changes guard has
+    passed) -/
+theorem b_number (f : Nat) (ed ed1 : Ed) (loc cmd arg : Bytes) (txt : Option Bytes) (i : Nat) (b : Buf)
+    (hd : isDigitC (arg.headD 0) = true)
+    (hb : ed.bufs.getD i none = some b) (hid : b.id = atoi arg)
+    (hfirst : ∀ j b', j < i → ed.bufs.getD j none = some b' → b'.id ≠ atoi arg)
+    (hguard : bufferGuard ed cmd = some (false, ed1)) :
+    runCmd (f + 1) ed "ec_buffer" loc cmd arg txt = some (0, ed1.bufsSwitch i) := by
+  have hi := (mem_of_getD _ _ _ hb).2
+  have hfind : (List.range ed.bufs.length).find? (fun i => (ed.bufs.getD i none).map (·.id) == some (atoi arg)) = some i := by
+    rw [List.find?_range_eq_some]
+    refine ⟨by rw [hb]; simp [hid], by simpa using hi, ?_⟩
+    intro j hj
+    cases hbj : ed.bufs.getD j none with
+    | none => simp
+    | some b' => simpa using hfirst j b' hj hbj
+  have hd' := hd
+  unfold isDigitC at hd'
+  simp only [Bool.and_eq_true, decide_eq_true_eq] at hd'
+  have h0 : arg.isEmpty = false := by
+    cases arg with
+    | nil => simp at hd'
+    | cons a l => rfl
+  have h33 : (arg.headD 0 == 33) = false := beq_eq_false_iff_ne.mpr (by omega)
+  have h126 : (arg.headD 0 == 126) = false := beq_eq_false_iff_ne.mpr (by omega)
+  unfold bufferGuard at hguard
+  rw [runCmd]
+  simp only [show ("ec_buffer" == "ec_insert") = false by decide,
+    show ("ec_buffer" == "ec_print") = false by decide,
+    show ("ec_buffer" == "ec_null") = false by decide,
+    show ("ec_buffer" == "ec_delete") = false by decide,
+    show ("ec_buffer" == "ec_yank") = false by decide,
+    show ("ec_buffer" == "ec_put") = false by decide,
+    show ("ec_buffer" == "ec_lnum") = false by decide,
+    show ("ec_buffer" == "ec_undo") = false by decide,
+    show ("ec_buffer" == "ec_redo") = false by decide,
+    show ("ec_buffer" == "ec_mark") = false by decide,
+    show ("ec_buffer" == "ec_rs") = false by decide,
+    show ("ec_buffer" == "ec_at") = false by decide,
+    show ("ec_buffer" == "ec_glob") = false by decide,
+    show ("ec_buffer" == "ec_edit") = false by decide,
+    show ("ec_buffer" == "ec_substitute") = false by decide,
+    show ("ec_buffer" == "ec_exec") = false by decide,
+    show ("ec_buffer" == "ec_read") = false by decide,
+    show ("ec_buffer" == "ec_write") = false by decide,
+    show ("ec_buffer" == "ec_quit") = false by decide,
+    show ("ec_buffer" == "ec_buffer") = true by decide,
+    Bool.false_eq_true, if_false, if_true, Bool.false_or, h0, h33, h126, hd, hfind, Int.toNat_natCast, hb,
+    hguard]
+  simp [hi]
+
+/-! ### non-vacuity -/
+
+/-- three buffers "a", "b", "c" (ids 1, 2, 3); "a" is current and viewed at row 5, offset 2 -/
+def exEd : Ed :=
+  { bufs := [some { path := [97], lb := { lines := [[120, 10]] }, id := 1, row := 0, off := 0 },
+             some { path := [98], lb := { lines := [[121, 10], [122, 10]] }, id := 2, row := 1, off := 3 },
+             some { path := [99], lb := { lines := [] }, id := 3, row := 7, off := 0, mtime := 44 }] ++
+            List.replicate 13 none,
+    bufsCnt := 3, xrow := 5, xoff := 2, files := [⟨[99], [113, 10], 44⟩] }
+
+/-- the same with "a" and "b" marked as having unsaved changes, "c" clean -/
+def exEdDirty : Ed :=
+  { exEd with bufs := [some { path := [97], lb := unsavedMark { lines := [[120, 10]] }, id := 1 },
+             some { path := [98], lb := unsavedMark { lines := [[121, 10]] }, id := 2 },
+             some { path := [99], lb := { lines := [] }, id := 3 }] ++ List.replicate 13 none }
+
+/-- what the examples observe of a slot: path, lines, row, off, id -/
+def exView (b : Option Buf) : Option (Bytes × List Bytes × Int × Int × Int) :=
+  b.map (fun b => (b.path, b.lb.lines, b.row, b.off, b.id))
+
+-- switching to slot 2: "c" in front, "a" (with the view 5/2 stored) and "b" shifted down
+example : ((exEd.bufsSwitch 2).bufs.take 4).map exView =
+    [some ([99], [], 7, 0, 3), some ([97], [[120, 10]], 5, 2, 1),
+     some ([98], [[121, 10], [122, 10]], 1, 3, 2), none] := by decide
+-- the dirty flags travel with the buffers ("a" and "b" dirty, "c" clean)
+example : (exEdDirty.bufs.take 3).map (fun b => b.map (fun b => (b.path, (modified b.lb).1))) =
+      [some ([97], true), some ([98], true), some ([99], false)] ∧
+    ((exEdDirty.bufsSwitch 2).bufs.take 3).map (fun b => b.map (fun b => (b.path, (modified b.lb).1))) =
+      [some ([99], false), some ([97], true), some ([98], true)] := by decide
+example : ((exEd.bufsSwitch 2).xrow, (exEd.bufsSwitch 2).xoff) = (7, 0) := by decide
+-- and back: the position of "a" is restored
+example : (((exEd.bufsSwitch 2).bufsSwitch 1).xrow, ((exEd.bufsSwitch 2).bufsSwitch 1).xoff,
+    (((exEd.bufsSwitch 2).bufsSwitch 1).bufs.take 3).map (fun b => b.map (·.path))) =
+    (5, 2, [some [97], some [99], some [98]]) := by decide
+-- lookup by path
+example : exEd.bufsFind [98] = 1 ∧ exEd.bufsFind [100] = -1 ∧ exEd.findRoom = 3 := by decide
+-- opening a fourth buffer uses slot 3 and id 4
+example : ((exEd.bufsOpen [100]).1, ((exEd.bufsOpen [100]).2.bufs.getD 3 none).map (fun b => (b.path, b.id))) =
+    (3, some ([100], 4)) := by decide
+-- `:e c` while "c" is open: a switch; the file "c" (which holds a line) is not read
+example : (ecEdit 5 { exEd with xwa := 1 } [101] [99]).map (fun r => (r.1, r.2.cur.map (fun b => (b.path, b.lb.lines)))) =
+    some (0, some ([99], [])) := by rw [ecEdit]; decide +kernel
+-- `:b 2`
+example : (runCmd 5 { exEd with xwa := 1 } "ec_buffer" [] [98] [50] none).map
+    (fun r => (r.1, r.2.cur.map (·.path), r.2.xrow, r.2.xoff)) = some (0, some [98], 1, 3) := by
+  rw [runCmd]; decide +kernel
+
 end Neatvi.Props.C20
